@@ -105,6 +105,13 @@ def seasoned_models():
                                                   M([(S('a_b'), I('1')), (S('x-y'), I('2'))]),
                                                   M([(S('a-b'), I('1')), (S('c-d'), S('v')), (S('c_d'), S('w'))])]}],
                      'root': ('cls', 'K')}
+    # parameters with two underscores: a key may have some of them as dashes
+    yield 'season', {'classes': BASE + [{'name': 'K', 'params': [('a_b_c', 'int'), ('d_e_f', 'str', 'x')],
+                                         'hooks': {'savorize': [('dashes_to_unders',)]},
+                                         'docs': [M([(S('a-b-c'), I('1'))]), M([(S('a-b_c'), I('1'))]), M([(S('a_b-c'), I('1')), (S('d-e_f'), S('v'))]),
+                                                  M([(S('a_b_c'), I('1')), (S('d_e-f'), S('v'))]), M([(S('a-b_c'), I('1')), (S('a_b-c'), I('2'))])]},
+                                        {'name': 'H', 'params': [('k', ('cls', 'K')), ('n', 'int', 0)]}],
+                     'root': ('cls', 'H')}
     yield 'season', {'classes': BASE + [{'name': 'K', 'params': [('new', 'int')],
                                          'hooks': {'savorize': [('rename', 'old', 'new')]},
                                          'docs': [M([(S('old'), I('1'))]), M([(S('old'), I('1')), (S('new'), I('2'))])]}],
